@@ -1342,6 +1342,11 @@ impl TensorStore {
         self.router.clear();
         for key in new_router.scan("") {
             if let Ok(value) = new_router.get(&key) {
+                // `router.put` bypasses the Bloom filter that `get`/`exists` consult first:
+                // register the restored key, or it stays invisible to them
+                if let Some(ref filter) = self.bloom_filter {
+                    filter.add(&key);
+                }
                 // Best-effort restore - continue even if individual entries fail
                 if let Err(e) = self.router.put(&key, value) {
                     tracing::warn!(
